@@ -204,3 +204,212 @@ pub fn cmd_record(args: &[String]) -> i32 {
     println!("{}", json!({"runs": n, "judged": judged, "events": events}));
     0
 }
+
+// ------------------------------------------------------------------ C11: meta block vs inlined value
+fn run_pair(prior: &str, src: &str, style: &str) -> (Value, Xstate) {
+    let mut xs = fresh();
+    if !prior.is_empty() {
+        let _ = submit(&mut xs, prior, style);
+        xs.read_stdout();
+    }
+    let r = submit(&mut xs, src, style);
+    let o = obs(&mut xs, &r);
+    (o, xs)
+}
+
+fn user_vars(xs: &Xstate) -> Value {
+    let base = fresh().verif_dump().heap.len();
+    Value::Array(xs.verif_dump().heap.iter().skip(base).map(cell_json).collect())
+}
+
+pub fn judge_meta(case: &Value) -> Option<Value> {
+    if case["skip"] == 1 {
+        return None;
+    }
+    let style = case["style"].as_str().unwrap_or("eval");
+    let prior = words(&case["prior"]);
+    let with = words(&case["with"]);
+    let inl = words(&case["inl"]);
+    let mut why: Vec<String> = vec![];
+    let (ow, xw) = run_pair(&prior, &with, style);
+    if ow["err"] == "panic" {
+        return None;
+    }
+    let pred_out: String = case["wout"].as_array().map(|a| a.iter().map(|x| x.as_str().unwrap_or("")).collect()).unwrap_or_default();
+    let pred = json!({"err": case["werr"], "vis": case["wvis"], "out": pred_out});
+    if ow != pred {
+        why.push("the program with the meta block does not behave as the design predicts".into());
+    }
+    if case["eok"] == 1 {
+        let (oi, xi) = run_pair(&prior, &inl, style);
+        if ow != oi || user_vars(&xw) != user_vars(&xi) {
+            why.push("the program with the meta block differs from the program with the block's value written out".into());
+        }
+        // only constants defined by the block remain
+        let before: std::collections::HashSet<String> = {
+            let mut xs = fresh();
+            if !prior.is_empty() {
+                let _ = submit(&mut xs, &prior, style);
+            }
+            xs.word_list().iter().map(|s| s.to_string()).collect()
+        };
+        let after_i: std::collections::HashSet<String> = xi.word_list().iter().map(|s| s.to_string()).collect();
+        let consts: std::collections::HashSet<String> = case["consts"].as_array().map(|a| a.iter().map(|x| x.as_str().unwrap_or("").to_string()).collect()).unwrap_or_default();
+        for w in xw.word_list().iter() {
+            let w = w.to_string();
+            if !before.contains(&w) && !after_i.contains(&w) && !consts.contains(&w) {
+                why.push(format!("`{}` defined inside the meta block is still in the dictionary", w));
+            }
+        }
+        // compile executes nothing outside the meta blocks
+        let mut xs = fresh();
+        if !prior.is_empty() {
+            let _ = submit(&mut xs, &prior, style);
+            xs.read_stdout();
+        }
+        let vis0 = stack_json(&xs);
+        let vars0 = user_vars(&xs);
+        if let Outcome::Done(Ok(())) = guarded(|| xs.compile(&with)) {
+            let vars1 = user_vars(&xs);
+            let n0 = vars0.as_array().map(|a| a.len()).unwrap_or(0);
+            let same_prefix = vars1.as_array().map(|a| a.len() >= n0 && Value::Array(a[..n0].to_vec()) == vars0).unwrap_or(false);
+            if stack_json(&xs) != vis0 || !same_prefix || !xs.read_stdout().unwrap_or_default().is_empty() {
+                why.push("compiling the source changed the data stack, a variable or printed something".into());
+            }
+        }
+    } else {
+        // a failing block rejects the whole source and touches nothing outside
+        if ow["err"] == "none" {
+            why.push("a source whose meta block fails was accepted".into());
+        }
+    }
+    if why.is_empty() {
+        None
+    } else {
+        Some(json!({"style": style, "prior": prior, "with": with, "inlined": inl, "why": why, "observed": ow, "predicted": pred}))
+    }
+}
+
+/// xv meta-replay <cases> <mismatches>
+pub fn cmd_meta_replay(args: &[String]) -> i32 {
+    let cases = read_lines(&args[0]);
+    let mut out = String::new();
+    let mut bad = 0usize;
+    let mut judged = 0usize;
+    for c in &cases {
+        if c["skip"] != 1 {
+            judged += 1;
+        }
+        if let Some(m) = judge_meta(c) {
+            bad += 1;
+            out.push_str(&m.to_string());
+            out.push('\n');
+        }
+    }
+    std::fs::write(&args[1], out).unwrap();
+    println!("{}", json!({"cases": cases.len(), "judged": judged, "mismatches": bad}));
+    0
+}
+
+fn lit_text(c: &Cell) -> Option<String> {
+    Some(match c {
+        Cell::Nil => "nil".into(),
+        Cell::Flag(b) => if *b { "true".into() } else { "false".into() },
+        Cell::Int(i) => format!("{}", i),
+        Cell::Real(r) => {
+            if !r.is_finite() {
+                return None;
+            }
+            format!("{:?}", r)
+        }
+        Cell::Str(s) => {
+            if s.chars().any(|c| c == '"' || c == '\\' || c == '\n' || c == '\r' || c == '\t') {
+                return None;
+            }
+            format!("\"{}\"", s)
+        }
+        Cell::Vector(v) => {
+            let mut parts = vec!["[".to_string()];
+            for x in v.iter() {
+                parts.push(lit_text(x)?);
+            }
+            parts.push("]".into());
+            parts.join(" ")
+        }
+        Cell::Bitstr(_) => format!("{:?}", c),
+        _ => return None,
+    })
+}
+
+/// xv meta-record <trace> <side> <seed> <n> <budget>
+pub fn cmd_meta_record(args: &[String]) -> i32 {
+    let seed: u64 = args[2].parse().unwrap_or(1);
+    let n: usize = args[3].parse().unwrap_or(100);
+    let budget: usize = args[4].parse().unwrap_or(12);
+    let dict: Vec<String> = fresh().word_list().iter().map(|s| s.to_string()).collect();
+    let mut g = gen::Gen::new(seed, dict);
+    g.all_words = false;
+    g.with_cursor = false;
+    let mut rng = Rng::new(seed ^ 0x1111);
+    let positions: [(&str, &str); 7] = [
+        ("9", ""), ("[ 8", "]"), (": mf 6", "; mf mf"), ("true if", "then 4"), ("2 0 do", "loop"),
+        ("1 case 1 of", "endof endcase"), ("0 begin 1 +", "drop dup 2 >= until"),
+    ];
+    let mut trace = String::new();
+    let mut side = String::new();
+    let mut judged = 0usize;
+    let mut multi = 0usize;
+    for i in 0..n {
+        let e = g.program(2 + rng.below(budget));
+        // the value(s) e evaluates to, on a fresh interpreter
+        let mut xe = fresh();
+        let ok = matches!(guarded(|| xe.eval(&e)), Outcome::Done(Ok(())));
+        if !ok || !xe.read_stdout().unwrap_or_default().is_empty() {
+            continue;
+        }
+        if e.contains("var ") || e.contains("emit") || e.contains(" big") || e.starts_with("big") || e.contains("little") {
+            continue; // needs the heap: refused in meta mode by design
+        }
+        let vals = visible_stack(&xe);
+        let mut lits: Vec<String> = vec![];
+        let mut printable = true;
+        for v in vals.iter().rev() {
+            match lit_text(v) {
+                Some(t) => lits.push(t),
+                None => printable = false,
+            }
+        }
+        if !printable {
+            continue;
+        }
+        let (pre, suf) = positions[rng.below(positions.len())];
+        let style = if rng.chance(1, 2) { "eval" } else { "repl" };
+        let prior = if rng.chance(1, 2) { "100 200" } else { "" };
+        let with = format!("{} #( {} #) {}", pre, e, suf);
+        let inl = format!("{} {} {}", pre, lits.join(" "), suf);
+        let (ow, xw) = run_pair(prior, &with, style);
+        let (oi, xi) = run_pair(prior, &inl, style);
+        if ow["err"] == "panic" || oi["err"] == "panic" {
+            continue;
+        }
+        if ow["err"] == "Context" {
+            continue; // the expression needs a variable (e.g. the byte-order flag): refused in meta mode by design
+        }
+        judged += 1;
+        if vals.len() > 1 {
+            multi += 1;
+        }
+        let a = json!({"obs": ow, "vars": user_vars(&xw)});
+        let b = json!({"obs": oi, "vars": user_vars(&xi)});
+        trace.push_str(&json!({"run": i, "twin": "block", "o": fnv(&a.to_string())}).to_string());
+        trace.push('\n');
+        trace.push_str(&json!({"run": i, "twin": "inlined", "o": fnv(&b.to_string())}).to_string());
+        trace.push('\n');
+        side.push_str(&json!({"run": i, "style": style, "prior": prior, "with": with, "inlined": inl, "block": a, "inl": b}).to_string());
+        side.push('\n');
+    }
+    std::fs::write(&args[0], trace).unwrap();
+    std::fs::write(&args[1], side).unwrap();
+    println!("{}", json!({"runs": n, "judged": judged, "multi_valued": multi}));
+    0
+}
